@@ -179,7 +179,9 @@ impl IndicatorInstance for TrendStrengthIndexInstance {
 		// when the window is (almost) constant, where the correlation is not defined
 		let q = self.k * sma.mul_add(-self.sy, self.sy2);
 
-		let value = if q > 0.0 { p / q.sqrt() } else { 0.0 };
+		// p^2 <= q in exact arithmetic (Cauchy-Schwarz), but `q` is a difference of two large sums: on an almost constant
+		// window its rounding error lets the quotient slip past the documented range
+		let value = if q > 0.0 { (p / q.sqrt()).clamp(-1.0, 1.0) } else { 0.0 };
 
 		let cross_signal = self.cross_under.next(&(value, self.cfg.zone))
 			- self.cross_above.next(&(value, -self.cfg.zone));
